@@ -92,6 +92,16 @@ func TestCheck(t *testing.T) {
 						return
 					}
 				}
+				// PostgreSQL: columns retyped to an enum of the schema and to an array of it, and new columns of those types
+				if d == "postgres" {
+					for _, ty := range []string{"enum:mood", "enumarr:mood"} {
+						for _, e := range []c02.EditRef{{Kind: "modify-type", Table: "users", Obj: "ufree1", Arg: ty}, {Kind: "add-column", Table: "users", Obj: "zz_col", Arg: ty}} {
+							if !ev.Each(col, "enumerated", Case{Dialect: d, Base: base, Scenario: "modify", Edits: []c02.EditRef{e}, Qualifier: q, Mode: mode}, check, known) {
+								return
+							}
+						}
+					}
+				}
 				for _, s := range c02.Sites(d, base) {
 					i++
 					if !col.Mine(i) {
